@@ -128,7 +128,7 @@ FIND_HOSTS = ("%s", "(?x)%s", "(?x:%s)(?=)")
 
 def run_c17(tier, seed, replay=None):
     res = core.Result("C17", tier, seed)
-    obligations, closed, log = core.coq_property("C17", ["C17_escape_borrow", "C17_quoted_shape", "C17_specials_cover_parser", "C17_parse_escape", "C17_lits_match", "C17_escape_is_find", "C17_embedded"])
+    obligations, closed, log = core.coq_property("C17", ["C17_escape_borrow", "C17_quoted_shape", "C17_specials_cover_parser", "C17_parse_escape", "C17_lits_match", "C17_escape_is_find", "C17_embedded", "C17_escape_opaque_to_free_spacing"])
     proof_ok = all([res.oblige(n, ok) for n, ok in obligations])
     core.build_ocaml()
     core.build_harness()
